@@ -21,6 +21,13 @@ NOTES = {
  "C14-E": "missed at first; C14's fixtures gained a cross-certified root (one issuing CA, two paths above it) and the group `cross`",
  "C15-E": "missed at first; C15's frozen-STH alphabet gained the genuine signature next to altered size / timestamp / root",
  "C15-F": "missed at first; C15's mirror history gained a lagging backend (later roots smaller than earlier ones)",
+ "C01-F": "C01 missed it; C02 gained the path-history pass (chains sharing their first certificates submitted to one instance) and catches it",
+ "C03-F": "missed at first; C03 now asks about the same final certificate under another issuer certificate (real, other, real)",
+ "C06-E": "missed at first; C06's BFS gained the operation `signfail` (a get-sth while the signer refuses to sign)",
+ "C11-E": "missed at first; C11's unknown extensions now rotate over OIDs adjacent to known ones",
+ "C17-E": "missed at first; C17 gained the family roots/refreshed-twice",
+ "C20-E": "missed at first; C20's source may now publish between two get-sth calls of a one-shot pass",
+ "C20-F": "missed at first (empty answers were excluded as outside 'from one up to'); C16 and C20 now answer with an empty entry list as a fault",
  "C16-A": "missed at first; C16's callback now retains the batches and re-reads them after the scan",
  "C01-D": "missed at first; ref/pki gained RSA keys published with a non-canonical SubjectPublicKeyInfo, used as issuers in C01 and C03",
  "C02-C": "missed at first (every pass pinned `now`); C02 gained the live-instance pass: real SetUpInstance from a LogConfig in a synctest bubble, one instance submitted to before and after the leaves' NotAfter",
